@@ -3,7 +3,7 @@
 import json, sys
 pid, wt = sys.argv[1], sys.argv[2]
 p = next(json.loads(l) for l in open('/verif/properties.jsonl') if json.loads(l)['id'] == pid)
-print(f"""You are given a git worktree of the Rust workspace p2panda (a modular p2p toolkit) at `{wt}`. It is your private scratch copy: work ONLY inside `{wt}` (never touch /repo or /verif, and do not read anything under /verif). The sandbox is offline: use `cargo ... --offline`; set `CARGO_TARGET_DIR=/tmp/seed-target` for every cargo command (shared build cache).
+print(f"""You are given a git worktree of the Rust workspace p2panda (a modular p2p toolkit) at `{wt}`. It is your private scratch copy: work ONLY inside `{wt}` (never touch /repo or /verif, and do not read anything under /verif). The sandbox is offline: use `cargo ... --offline`; set `CARGO_TARGET_DIR=/tmp/seed-target-{pid}` for every cargo command (your own build directory; do NOT share a target dir with other worktrees – cargo would link stale artifacts of another worktree).
 
 Here is a semantic property that the code currently satisfies:
 
